@@ -429,6 +429,8 @@ def execute(st, ctx):
 
     if sim.deadlock or (not sim.capped and len(atrace) != len(sc.ops)):
         out.violate("C10.history_did_not_finish", sig[2:], describe())
+    elif sim.capped:
+        out.violate("C10.history_does_not_terminate", sig[2:], dict(describe(), steps=sim.seq))
     elif not sim.capped:
         # model vs functools: a mismatch is a harness problem, never blamed on the library
         for i, (r, m) in enumerate(zip(rtrace, mtrace)):
